@@ -3,6 +3,7 @@ package syncer
 import (
 	"context"
 	"fmt"
+	"github.com/PowerDNS/lightningstream/utils/verifhook"
 	"strings"
 	"time"
 
@@ -20,6 +21,7 @@ import (
 // keys will be present in the shadow database.
 func (s *Syncer) mainToShadow(ctx context.Context, txn *lmdb.Txn, tsNano header.Timestamp) error {
 	t0 := time.Now()
+	t0 = verifhook.Now("mainToShadow.t0", t0)
 
 	// List of DBIs to dump
 	dbiNames, err := lmdbenv.ReadDBINames(txn)
